@@ -920,7 +920,7 @@ static void codec_bp128(const uint64_t *vals, size_t n) {
     }
     /* block functions on every complete 128-chunk */
     if (M02 && n >= 128) {
-        for (size_t b = 0; b + 128 <= n && b < 512; b += 128) {
+        for (size_t b = 0; b + 128 <= n && b < 4224; b += 128) {
             uint32_t *in32 = (uint32_t *)vh_gb_get(G_IN, 128 * 4, -1);
             memcpy(in32, v32 + b, 128 * 4);
             uint8_t *dst = vh_gb_get(G_DST, 1 + 128 * 4, 0xEE);
@@ -1048,8 +1048,24 @@ static void codec_adaptive(const uint64_t *vals, size_t n, int auto_only) {
         /* only the auto-selecting encoder advertises varintAdaptiveMaxSize */
         size_t fb = 20 * n + 8300;
         uint8_t *dst = (M03 && forced < 0) ? vh_gb_get(G_DST, bound, 0xEE) : vh_gb_get(G_DST, (bound > fb ? bound : fb) + SLACK, 0xEE);
+        /* meta is documented as an output: its prior contents must not matter. Two fills are alternated over the
+         * corpus: zeroes, and the leftovers of a plausible earlier call on another array of the SAME length (FOR /
+         * PFOR sub-metadata naming this count, a different minimum and a 1-byte width) */
         varintAdaptiveMeta em;
         memset(&em, 0, sizeof em);
+        /* which fill is used is a function of the case (corpus index, forced type) so that replays are faithful */
+        if (((vh_idx + (uint64_t)(forced + 1)) & 1) && (M06 || M16)) {
+            memset(&em, 0xEE, sizeof em);
+            em.originalCount = n;
+            em.encodedSize = 7;
+            em.encodingType = VARINT_ADAPTIVE_FOR;
+            em.encodingMeta.forMeta.count = n;
+            em.encodingMeta.forMeta.minValue = 12345;
+            em.encodingMeta.forMeta.maxValue = 12345 + 200;
+            em.encodingMeta.forMeta.range = 200;
+            em.encodingMeta.forMeta.offsetWidth = VARINT_WIDTH_8B;
+            em.encodingMeta.forMeta.encodedSize = 4 + n;
+        }
         size_t wrote = 0;
         if (!LIBCALL(eapi, forced < 0 ? "auto" : ENCNAME[forced], wrote = forced < 0 ? varintAdaptiveEncode(dst, in, n, &em) : varintAdaptiveEncodeWith(dst, in, n, (varintAdaptiveEncodingType)forced, &em))) {
             continue;
